@@ -210,4 +210,23 @@ Section Atom.
   Theorem exec_block_fail_unchanged bno cb vr s txs :
     exec_block is_name cid_of tx_hash vm sig_ok cfg bno cb vr s txs = None -> apply_block bno cb vr s txs = s.
   Proof. unfold apply_block. intros ->. reflexivity. Qed.
+  (** C04, producer path: a pooled transaction executes only as the account its signature was verified for *)
+  Theorem exec_tx_pooled_as_verified a bno s t o s' :
+    exec_tx_pooled is_name cid_of tx_hash vm cfg (Some a) bno s t = (o, s') -> o <> Rejected ->
+    resolve is_name s (t_from t) = a.
+  Proof.
+    unfold exec_tx_pooled. destruct (N.eqb_spec a (resolve is_name s (t_from t))) as [E|E]; [auto|].
+    intros [= <- _] H. congruence.
+  Qed.
+  Theorem exec_tx_pooled_rejected_unchanged va bno s t s' :
+    exec_tx_pooled is_name cid_of tx_hash vm cfg va bno s t = (Rejected, s') -> s' = s.
+  Proof.
+    unfold exec_tx_pooled. destruct va as [a|]; [destruct (_ =? _)%N|]; try (intros [= <-]; reflexivity);
+      apply exec_tx_rejected_unchanged.
+  Qed.
+
+  (** C03, commit-only path: a supplied block state that is not the one the header commits to leaves the node state *)
+  Theorem commit_only_fail_unchanged (root_of : lstate -> N) hdr supplied s :
+    root_of supplied <> hdr -> commit_only root_of hdr supplied s = s.
+  Proof. unfold commit_only. intros H. destruct (N.eqb_spec (root_of supplied) hdr); [contradiction|reflexivity]. Qed.
 End Atom.
